@@ -81,7 +81,7 @@ Definition jv_batfiles (b : batfiles) : jv :=
 (* exact value of now/power*3600 of the reported battery (harness: float truncation hazard) *)
 Definition secs_exact (b : kbat) : jv :=
   match spec_salt (kb_now b), spec_salt (kb_power b) with
-  | Some n, Some w => if w =? 0 then jnone else jq (inject_Z (n * 3600) / inject_Z w)%Q
+  | Some n, Some w => if w =? 0 then jnone else jq (inject_Z (n * 3600) / inject_Z (Z.abs w))%Q
   | _, _ => jnone
   end.
 
